@@ -14,7 +14,7 @@ import (
 
 // A fault is what goes wrong in one attempt.
 type fault struct {
-	kind string // none | dial | drop | cancel | rcall | hcall | corrupt
+	kind string // none | dial | drop | cancel | rcall | hcall | corrupt | midmine
 	pos  int    // message index (drop, cancel, corrupt)
 	name string // call name (rcall, hcall) or corruption name
 	// corrupt: the mutation and what the model is told it does (the first check it trips, or
@@ -31,7 +31,7 @@ func (f fault) String() string {
 		return f.kind
 	case "drop", "cancel":
 		return fmt.Sprintf("%s %d", f.kind, f.pos)
-	case "rcall", "hcall":
+	case "rcall", "hcall", "midmine":
 		return f.kind + " " + f.name
 	}
 	return fmt.Sprintf("corrupt %d %s", f.pos, f.effect)
@@ -165,6 +165,10 @@ func (w *world) attempt(rpc string, f fault) observation {
 			if m.Obj != nil {
 				f.mut(m)
 			}
+		case "midmine":
+			// blocks arrive at the host after it sent its inputs and before the renter's
+			// signatures reach it: the funding basis is no longer the tip in the final phase
+			w.mineMid(f.name)
 		}
 	}
 	var tr *rhpc.Client
@@ -228,4 +232,22 @@ func (w *world) attempt(rpc string, f fault) observation {
 	o.recorded = w.hc.takeRecorded()
 	o.rAfter, o.hAfter = reserved(w.rn, true), reserved(w.hn, false)
 	return o
+}
+
+// mineMid mines on the host's node in the middle of an exchange: "1" = one block, "pow2" = until
+// the element accumulator has passed the next power of two (every input's proof then changes).
+func (w *world) mineMid(how string) {
+	if how == "1" {
+		must(w.hn.Mine(types.VoidAddress, 1))
+	} else {
+		n := w.hn.CM.TipState().Elements.NumLeaves
+		target := uint64(1)
+		for target <= n {
+			target <<= 1
+		}
+		for i := 0; i < 400 && w.hn.CM.TipState().Elements.NumLeaves <= target; i++ {
+			must(w.hn.Mine(types.VoidAddress, 1))
+		}
+	}
+	must(w.h.WaitContractor())
 }
